@@ -42,3 +42,11 @@ package sqlx
 //@   ensures  commits + rollbacks <= old(commits) + old(rollbacks) + 1
 //@   ensures_panic false
 //@   modifies commits, rollbacks, commitErr, rollbackErr, calls(fn), calls(b), calls(db.connProv), calls(db.onError)
+
+// the non-ctx entry of the connection: same adapter discipline
+//@ func (db *commonSqlConn) Transact closure 0
+//@   property C14
+//@   flag callbacks_noheap
+//@   requires fn != nil
+//@   ensures calls(fn) == old(calls(fn)) + 1 && result == ret(fn) && !panicked(fn)
+//@   ensures_panic calls(fn) == old(calls(fn)) + 1 && panicked(fn)
